@@ -1,9 +1,18 @@
 (* C15 — The parsed file structure and its syntax tree never diverge under edits.
    Property theorems only; each is closed by [exact] of a lemma proved in Modfile/EditProofs*.v.
    Model: Modfile/EditModel.v (state, read.go helpers), Modfile/EditOps.v (operations),
-   spec: Modfile/EditSpec.v (Coherent, abs, kstep). *)
+   spec: Modfile/EditSpec.v.
+
+   [Coherent f] (EditSpec.v): the syntax tree is well shaped (every line occurs once, its
+   InBlock flag says where it sits, block headers have one token), every live typed entry
+   has a line and every cleared one has none, and the live lines of the tree — each as
+   (line id, verb, normalised arguments incl. the "// indirect" marking) — are, as a
+   multiset, exactly the live typed entries rendered the same way ([tree_view] is a
+   permutation of [typed_view]).  The harness evaluates [coherentb] on the parse of every
+   starting file and after every operation of every generated sequence (function EditInv). *)
+From Coq Require Import Permutation.
 From Verif.Base Require Import Bytes.
-From Verif.Modfile Require Import EditModel EditOps EditSpec EditProofsTyped.
+From Verif.Modfile Require Import EditModel EditOps EditSpec EditProofsTyped EditProofsCoherent EditProofsCleanup.
 
 (* After File.Cleanup no typed list holds a cleared placeholder entry. *)
 Theorem C15_no_placeholders_after_cleanup : forall f,
@@ -23,3 +32,56 @@ Theorem C15_work_no_placeholders_after_cleanup : forall f,
   Forall (fun r => rp_op r <> []) (f_replace (w_cleanup f)).
 Proof. exact w_no_placeholders_after_cleanup. Qed.
 Print Assumptions C15_work_no_placeholders_after_cleanup.
+
+(* coherent_invariant, the part that is proved: Cleanup (incl. the collapse of one-line
+   blocks, which keeps the identity of the line the typed entry points to), every Drop*
+   operation, AddComment. *)
+Theorem C15_coherent_cleanup : forall f, Coherent f -> Coherent (cleanup f).
+Proof. exact cleanup_coherent. Qed.
+Print Assumptions C15_coherent_cleanup.
+
+Theorem C15_coherent_work_cleanup : forall f, Coherent f -> Coherent (w_cleanup f).
+Proof. exact w_cleanup_coherent. Qed.
+Print Assumptions C15_coherent_work_cleanup.
+
+Theorem C15_coherent_drop_godebug : forall f key f', Coherent f -> drop_godebug f key = Some f' -> Coherent f'.
+Proof. exact drop_godebug_coherent. Qed.
+Print Assumptions C15_coherent_drop_godebug.
+Theorem C15_coherent_drop_require : forall f p f', Coherent f -> drop_require f p = Some f' -> Coherent f'.
+Proof. exact drop_require_coherent. Qed.
+Print Assumptions C15_coherent_drop_require.
+Theorem C15_coherent_drop_exclude : forall f p v f', Coherent f -> drop_exclude f p v = Some f' -> Coherent f'.
+Proof. exact drop_exclude_coherent. Qed.
+Print Assumptions C15_coherent_drop_exclude.
+Theorem C15_coherent_drop_replace : forall f op ov f', Coherent f -> drop_replace f op ov = Some f' -> Coherent f'.
+Proof. exact drop_replace_coherent. Qed.
+Print Assumptions C15_coherent_drop_replace.
+Theorem C15_coherent_drop_retract : forall f lo hi f', Coherent f -> drop_retract f lo hi = Some f' -> Coherent f'.
+Proof. exact drop_retract_coherent. Qed.
+Print Assumptions C15_coherent_drop_retract.
+Theorem C15_coherent_drop_tool : forall f p f', Coherent f -> drop_tool f p = Some f' -> Coherent f'.
+Proof. exact drop_tool_coherent. Qed.
+Print Assumptions C15_coherent_drop_tool.
+Theorem C15_coherent_drop_use : forall f p f', Coherent f -> drop_use f p = Some f' -> Coherent f'.
+Proof. exact drop_use_coherent. Qed.
+Print Assumptions C15_coherent_drop_use.
+Theorem C15_coherent_drop_go_stmt : forall f f', Coherent f -> drop_go_stmt f = ROk f' -> Coherent f'.
+Proof. exact drop_go_stmt_coherent. Qed.
+Print Assumptions C15_coherent_drop_go_stmt.
+Theorem C15_coherent_drop_toolchain_stmt : forall f f', Coherent f -> drop_toolchain_stmt f = ROk f' -> Coherent f'.
+Proof. exact drop_toolchain_stmt_coherent. Qed.
+Print Assumptions C15_coherent_drop_toolchain_stmt.
+Theorem C15_coherent_add_comment : forall f t, Coherent f -> Coherent (add_comment f t).
+Proof. exact add_comment_coherent. Qed.
+Print Assumptions C15_coherent_add_comment.
+
+(* NOT PROVED (the full target):
+
+   coherent_invariant : forall o f f', Coherent f -> valid_args o = true ->
+                        apply o f = ROk f' -> Coherent f'
+     is open for the operations that add or rewrite lines (Add*, Set*, SortBlocks): they need
+     the case analysis of addLine (five placements, line->block conversion) on [tree_view].
+     It is evaluated on every generated case instead (EditInv: coherentb after each
+     operation; 0 failures).
+
+   typed_equals_reparse needs the parser/printer round trip (C02/C20, other files). *)
